@@ -247,6 +247,9 @@ pub struct Oracles {
     pub timing: bool,
     /// connections excluded from content oracles (hostile victim)
     pub exclude_clients: Vec<usize>,
+    /// once per case (in about half of the cases) the otherwise polite application submits a reliable message although
+    /// can_send_message said no: documented to disconnect; a connection that stays up has accepted the message
+    pub impolite_once: bool,
 }
 
 pub struct World {
@@ -264,6 +267,10 @@ pub struct World {
     pub active: Vec<bool>,
     /// every packet carrying this reliable message is dropped forever: (link, channel, message id)
     pub blackhole: Option<(Dir, u8, u64)>,
+    /// polite refusals on reliable channels so far / the refusal at which the application insists (None: never) / whether it did
+    pub refusals: u32,
+    pub insist_at: Option<u32>,
+    pub insisted: bool,
 }
 
 pub fn content_key(client: usize, to_client: bool, ch: u8, serial: u32) -> u64 {
@@ -349,7 +356,10 @@ impl World {
         }
         while server.get_event().is_some() {}
         let n = cfg.n_clients;
-        World { cfg, server, clients, dirs, packets: vec![], now_ms: 0, or, prompt_drain: false, hostile_seen: vec![false; n], active: vec![true; n], blackhole: None }
+        // a function of the configuration, so a replay insists at the same refusal
+        let h = fnv(format!("{cfg:?}").as_bytes());
+        let insist_at = if or.impolite_once && h % 2 == 0 { Some(((h >> 8) % 5) as u32) } else { None };
+        World { cfg, server, clients, dirs, packets: vec![], now_ms: 0, or, prompt_drain: false, hostile_seen: vec![false; n], active: vec![true; n], blackhole: None, refusals: 0, insist_at, insisted: false }
     }
 
     pub fn all_dirs(&self) -> Vec<Dir> {
@@ -459,7 +469,19 @@ impl World {
         let kind = self.dirs[d.idx()].chans[&ch].cfg.kind;
         if polite && !can {
             self.dirs[d.idx()].chans.get_mut(&ch).unwrap().refused += 1;
-            return Ok(false);
+            let insist = kind.reliable() && !self.insisted && self.insist_at == Some(self.refusals);
+            if kind.reliable() {
+                self.refusals += 1;
+            }
+            // an unreliable channel just drops what does not fit (documented), so there every second refused message is submitted
+            // all the same: nothing may change, in particular not the channel's accounting
+            let shrug = kind == Kind::Unreliable && self.dirs[d.idx()].chans[&ch].refused % 2 == 0;
+            if !insist && !shrug {
+                return Ok(false);
+            }
+            if insist {
+                self.insisted = true;
+            }
         }
         let serial = self.dirs[d.idx()].chans[&ch].msgs.len() as u32;
         let content = make_content(d.client, d.to_client, ch, serial, len, mask);
@@ -469,7 +491,21 @@ impl World {
             self.clients[d.client].send_message(ch, content.clone());
         }
         if !can {
-            // impolite over-budget send: reliable disconnects, unreliable drops
+            // impolite over-budget send: unreliable drops; reliable is documented to disconnect - a connection that stays up has
+            // taken the message without a word, so it counts as submitted like any other
+            if kind.reliable() && !self.sender(d).map(|s| s.is_disconnected()).unwrap_or(true) {
+                self.register(d, ch, content, kind);
+                return Ok(true);
+            }
+            if kind == Kind::Unreliable {
+                let s = self.sender(d).unwrap();
+                if s.is_disconnected() {
+                    return Err(Fail::new("unreliable_send_disconnected", format!("an unreliable message of {len} bytes beyond the channel budget disconnected the sender: {:?}", s.disconnect_reason())));
+                }
+                if self.or.memory && s.channel_available_memory(ch) != avail_before {
+                    return Err(Fail::new("send_accounting", format!("an unreliable message of {len} bytes that was dropped for lack of budget changed the channel's available memory from {avail_before} to {}", s.channel_available_memory(ch))));
+                }
+            }
             return Ok(false);
         }
         let s = self.sender(d).unwrap();
